@@ -599,7 +599,7 @@ static int asyncClient_calculateRequestId(KSI_AsyncClient *c, KSI_uint64_t *id, 
 
 	do {
 		/* Check if the cache is full. */
-		if ((c->options[KSI_ASYNC_OPT_REQUEST_CACHE_SIZE]) == (c->pending + c->received + 1)) {
+		if ((c->options[KSI_ASYNC_OPT_REQUEST_CACHE_SIZE]) <= (c->pending + c->received + 1)) {
 			res = KSI_ASYNC_REQUEST_CACHE_FULL;
 			goto cleanup;
 		}
@@ -757,6 +757,10 @@ static int addRequest(KSI_AsyncClient *c, KSI_AsyncHandle *handle, void *req,
 		res = req_setRequestId(req, reqId);
 		if (res != KSI_OK) goto cleanup;
 		reqId = NULL;
+	} else if (c->options[KSI_ASYNC_OPT_REQUEST_CACHE_SIZE] <= (c->pending + c->received + 1)) {
+		/* A configuration request takes no cache slot, but it is a pending request like any other. */
+		res = KSI_ASYNC_REQUEST_CACHE_FULL;
+		goto cleanup;
 	}
 
 	res = c->getCredentials(c->clientImpl, NULL, &pass);
